@@ -19,6 +19,10 @@ def oz(x):
     return "None" if x is None else f"(Some ({int(x)}))"
 
 
+def ids_of(e):
+    return [e] if isinstance(e, int) else [x for sub in e[1:] if not isinstance(sub, int) or e[0] != "*" or sub is e[1] for x in ids_of(sub)] if e[0] != "*" else ids_of(e[1])
+
+
 def run(res: C.Result):
     rng = random.Random(res.seed)
     C.prove(res)
@@ -38,6 +42,12 @@ def run(res: C.Result):
             for lf in p["leaves"]:
                 if lf["kind"] == "disp":
                     lf["default_label"] = rng.choice([0, 0, -1, 7])
+        r3 = random.Random(p["seed"] ^ 0xC05)
+        single = [m for m in p["moves"] if isinstance(m["expr"], int) and p["leaves"][m["expr"]]["kind"] in ("disp", "exch")
+                  and sum(1 for m2 in p["moves"] if m["expr"] in ids_of(m2["expr"])) == 1]
+        if single and r3.random() < 0.3:
+            m0 = r3.choice(single)
+            p["replace_move"] = {"step": r3.randint(2, max(2, p["steps"] - 3)), "name": m0["name"], "leaf": m0["expr"]}
         cases.append(p)
     # net-zero swaps: one accepted trial that deletes one particle and inserts another (plain composite e1 + d + e2 with pre-selections)
     for k in range(6 if quick else 60):
@@ -50,6 +60,8 @@ def run(res: C.Result):
         e1, e2, d0 = p["moves"][-1]["expr"], len(p["leaves"]) - 1, p["moves"][0]["expr"]
         p["moves"] = [{"name": "swap", "expr": ["plain", e1, e2], "probability": 1.0}, {"name": "d", "expr": d0, "probability": 1.0}]
         p.update(force_swap=[e1, e2], max_cycles=2, steps=rng.randint(5, 9), verdicts=[True] * 40, vetoes=[], fixed=[])
+        if k % 2 and len(p["exchange"]["symbols"]) == 1:
+            p["force_swap_big"] = True
         cases.append(p)
     outs = C.run_impl_parallel("c05.py", [{"cases": cases[i::16]} for i in range(16)], timeout=3000)
     results = [None] * len(cases)
@@ -122,6 +134,8 @@ def run(res: C.Result):
                 removed = ev["ctx"]["deleted"] if ev else []
                 # particles: consecutive blocks of the template's size among the atoms that appeared
                 blocks = [set(new_vids[i:i + tsize]) for i in range(0, len(new_vids), tsize)]
+                if p.get("force_swap_big") and t["name"] == "swap" and new_vids:
+                    blocks = [set(new_vids)]          # the pre-selected three-atom species: ONE particle
                 inserted_particles += blocks
                 e_leaf = next((j for j in label_leaves if p["leaves"][j]["kind"] == "exch"), None)
                 removed_particles = 0
